@@ -6,7 +6,7 @@ PROPERTY = 'C10'
 ENGINE = 'E2 explicit-state search (BFS to fixpoint + all histories to depth k, no dedup) over the real connection handler on the E3 virtual network, one connection at a time'
 LEVEL = 'model_checking'
 ALPHABET = ['config1', 'config2', 'upload1', 'upload2', 'search', 'reconnect-before-cleanup', 'reconnect-after-cleanup', 'foreign-sid', 'unknown-type',
-            'config-malformed', 'upload-malformed', 'search-malformed']
+            'config-malformed', 'upload-malformed', 'search-malformed', 'no-sid', 'config-unstorable']
 DEPTH = {'quick': 4, 'thorough': 5}
 
 
@@ -15,7 +15,7 @@ def describe(tier):
         'rule': 'state = history of protocol events on ONE service id, replayed on a fresh virtual network + fresh ServicesManager + fresh sid; '
                 'alphabet = {config(c1), config(c2), upload(e1), upload(e2), search(t), reconnect before the 1 s cleanup, reconnect after it, a '
                 'config message carrying a foreign sid, a message of unknown type, a config message whose content is not a pickle, an index '
-                'upload without content, a token of the wrong length}; c1/c2 are valid PiBas configurations differing in salt, e1/e2 '
+                'upload without content, a token of the wrong length, a config message without a sid field, a configuration that cannot be stored as JSON}; c1/c2 are valid PiBas configurations differing in salt, e1/e2 '
                 'indexes of two different databases under one key, t a token whose answer differs between them. Reference model = '
                 '(state in {0,1,2}, accepted cfg, accepted edb, connection open). (a) BFS to fixpoint over canon = model state + files and hashes '
                 'under ~/.sse/<sid> + the active Service object\'s state snapshot and loaded-object flags + registry keys + armed cleanup timers; '
@@ -23,7 +23,7 @@ def describe(tier):
                 'acknowledged iff the model accepts it (a refusal may be a refusal message or a server-side closure); a search is answered only in '
                 'state 2 and with Search(accepted edb, t); config.json / edb bytes never change once accepted; a refused request changes nothing. '
                 'non-trivial = history containing at least one accepted request.' % DEPTH[tier],
-        'bounds': 'alphabet 12; BFS fixpoint; all histories of length <= %d' % DEPTH[tier],
+        'bounds': 'alphabet 14; BFS fixpoint; all histories of length <= %d' % DEPTH[tier],
         'assumptions': ['one connection at a time (overlap is C12)', 'transport model: in-memory, per-connection FIFO; validated against loopback TCP by mc/loopback.py',
                         'timer rule: only timers armed with <= 2 s (the cleanup delay) are schedulable events'],
         'must_be_nonzero': ['accepted-config', 'accepted-upload', 'answered-search', 'refused', 'reconnect-before-cleanup', 'bfs-fixpoint', 'dfs-histories', 'tcp-loopback-replays'],
@@ -148,6 +148,15 @@ class ServerSystem:
             s.conn.send('bogus', b'x')
             accept = False
             reply_type = None
+        elif ev == 'no-sid':                    # a configuration message without any sid field: not addressed to this service
+            s.conn.send('config', pickle.dumps(fx.c2), sid='__omit__')
+            accept = False
+            reply_type = 'config'
+        elif ev == 'config-unstorable':         # a configuration that unpickles but cannot be stored as JSON (bytes value)
+            bad = dict(fx.c2, extra=b'not json')
+            s.conn.send('config', pickle.dumps(bad))
+            accept = False
+            reply_type = 'config'
         elif ev == 'config-malformed':          # a configuration message whose content is not a pickle
             s.conn.send('config', b'this is not a pickle')
             accept = False
@@ -215,6 +224,11 @@ class ServerSystem:
                 # being stored may leave a (partial) file behind that the next accepted upload replaces
                 before = {k: v for k, v in before.items() if k != 'edb'}
                 after = {k: v for k, v in after.items() if k != 'edb'}
+            if md['state'] == 0:
+                # likewise a configuration that fails while being stored may leave a partial config.json behind; what must not
+                # appear is a state file, because that is what makes the service exist
+                before = {k: v for k, v in before.items() if k == 'service_meta'}
+                after = {k: v for k, v in after.items() if k == 'service_meta'}
             if after != before and not acked:
                 probs.append(('refused-request-changed-files', '%s/state%d' % (ev, md['state']), sorted(before), sorted(after)))
         md['open'] = not closed
@@ -240,8 +254,8 @@ class ServerSystem:
             want = fx.e1 if md['edb'] == 1 else fx.e2
             if files.get('edb') != want:
                 probs.append(('accepted-index-replaced-or-lost', ev, 'index %d on disk' % md['edb'], 'differs' if 'edb' in files else 'missing'))
-        if md['state'] == 0 and files:
-            probs.append(('files-without-accepted-config', ev, 'no service directory content', sorted(files)))
+        if md['state'] == 0 and 'service_meta' in files:
+            probs.append(('state-file-without-accepted-config', ev, 'no state file before a configuration is accepted', sorted(files)))
         return probs
 
     def canon(self, s):
